@@ -161,6 +161,24 @@ def check_alvec(o):
     v3 = a2.as_vector()
     if not L.close(v3, v, 1e-9):
         bad.append(("alignment from_vector(v).as_vector() != v", {"got": v3, "want": v}, None))
+    # constructor options steer the FIT; a parameter vector means the same transform whatever they are
+    opts = {"Similarity": [dict(rotation=False), dict(allow_mirror=True), dict(rotation=False, allow_mirror=True)], "Rotation": [dict(allow_mirror=True)]}.get(cls, [])
+    for kw in opts:
+        b = getattr(mt, "Alignment" + cls)(PointCloud(src), PointCloud(tgt0), **kw)
+        h0 = b.h_matrix.copy()
+        b2 = b.from_vector(v)
+        tag = "Alignment%s(%s): " % (cls, ", ".join("%s=%r" % kv for kv in sorted(kw.items())))
+        if type(b2) is not type(b) or not L.close(b2.h_matrix, M2, 1e-9):
+            bad.append((tag + "from_vector(v) is not the transform v describes", {"got": b2.h_matrix, "want": M2}, None))
+        elif not L.close(b2.as_vector(), v, 1e-9):
+            bad.append((tag + "from_vector(v).as_vector() != v", {"got": b2.as_vector(), "want": v}, None))
+        if not L.close(b2.target.points, b2.aligned_source().points, 1e-9):
+            bad.append((tag + "target != aligned source after from_vector", {}, None))
+        if not L.close(b.h_matrix, h0, 0):
+            bad.append((tag + "from_vector changed the receiver", {}, None))
+        for k, val in kw.items():
+            if getattr(b2, k, val) != val:
+                bad.append((tag + "from_vector lost the constructor option %s" % k, {}, None))
     return bad
 
 
